@@ -241,6 +241,7 @@ func runC13(c *Ctx) {
 	}
 	ruleFillShape(c)
 	ruleFillValue(c)
+	ruleRecipientsInOrder(c)
 	ruleGoCapture(c)
 }
 
@@ -436,4 +437,31 @@ func ruleFillValue(c *Ctx) {
 		R.Ob(c.siteKey(site, "status set for each accepted recipient"), c.P.InstrPos(site), inLoop, "SetStatus is not inside a loop over Conn.recipients")
 	}
 	R.Ob("server-side SetStatus sites/found", "-", nSet >= 1, fmt.Sprintf("%d call sites", nSet))
+}
+
+// ruleRecipientsInOrder (C13): the list the per-recipient replies follow holds the accepted recipients in RCPT
+// order: it only ever grows at its end, by the recipient just accepted, on the nil-error edge of Session.Rcpt, and
+// is otherwise only emptied by reset().
+func ruleRecipientsInOrder(c *Ctx) {
+	R := c.R
+	_, s := c.Std()
+	R.Rule("R-recipients-in-order", "E3+E4", "Conn.recipients grows only by append(c.recipients, <this recipient>) after Session.Rcpt returned nil; no other store rearranges it", 2)
+	n := 0
+	for _, site := range c.Sites("st:Conn.recipients") {
+		_, _, v := storedField(site)
+		if isNilConst(v) {
+			continue
+		}
+		n++
+		c.obUnreach("recipients=append", site, `invoke:Session.Rcpt != nil`)
+		R.Ob(c.siteKey(site, "recipient recorded after the backend accepted it"), c.P.InstrPos(site), s.SeenBefore(site)[lRcpt], "a recipient is recorded before the backend was asked")
+		ok := false
+		if call, isCall := v.(*ssa.Call); isCall {
+			if b, isB := call.Call.Value.(*ssa.Builtin); isB && b.Name() == "append" {
+				ok = describe(call.Call.Args[0]) == "Conn.recipients"
+			}
+		}
+		R.Ob(c.siteKey(site, "list extended at its end only"), c.P.InstrPos(site), ok, "Conn.recipients is set to "+describe(v)+": entries are removed or rearranged, the per-recipient replies no longer follow RCPT order")
+	}
+	R.Ob("Conn.recipients/growth sites", "-", n >= 1, fmt.Sprintf("%d sites", n))
 }
